@@ -143,6 +143,9 @@ type Spec struct {
 	GovStakeThresh  uint8     `json:"gov_stake_threshold"`
 	GovMinDeposit   uint64    `json:"gov_min_deposit"`
 	CommissionBound bool      `json:"commission_bounds"`
+	// CommissionInterval: epoch alignment required of commission schedule steps (rate_change_interval; 0 = the zero value
+	// a genesis document that leaves the field out has - it passes the genesis sanity check).
+	CommissionInterval *uint64 `json:"commission_interval,omitempty"`
 	MinCommission   uint64    `json:"min_commission_rate"`
 	WithRuntime     bool      `json:"with_runtime"`
 	RtGroup         uint16    `json:"rt_group"`
@@ -353,7 +356,7 @@ func BuildGenesis(spec *Spec) (*World, error) {
 		SigningRewardThresholdNumerator:   3,
 		SigningRewardThresholdDenominator: 4,
 		CommissionScheduleRules: staking.CommissionScheduleRules{
-			RateChangeInterval: 1,
+			RateChangeInterval: commissionInterval(spec),
 			RateBoundLead:      2,
 			MaxRateSteps:       4,
 			MaxBoundSteps:      4,
@@ -749,3 +752,16 @@ func (w *World) NodeDescriptorWithRoles(ek *EntityKeys, nk *NodeKeys, expiration
 }
 
 var _ = math.MaxInt64
+
+func commissionInterval(spec *Spec) beacon.EpochTime {
+	if spec.CommissionInterval == nil {
+		return 1
+	}
+	return beacon.EpochTime(*spec.CommissionInterval)
+}
+
+// Q returns a pointer to the quantity v (for descriptors built by the checks).
+func Q(v uint64) *quantity.Quantity {
+	x := q(v)
+	return &x
+}
